@@ -113,6 +113,8 @@ type HarnessRun struct {
 	snap      *Exec
 	stubFns   map[string]*ssa.Function
 	snapTried bool
+	snapOrder   []*ssa.Package
+	snapExtends int
 	havocN    int
 	memoObj   map[string][]*Term
 	tainted   bool
@@ -1011,7 +1013,19 @@ func (r *HarnessRun) runPath(prefix []int) {
 	defer func() {
 		if r.snap == nil && !r.snapTried && len(e.initOrder) > 0 {
 			r.snapTried = true
-			r.makeSnapshot(e.initOrder)
+			r.snapOrder = append([]*ssa.Package{}, e.initOrder...)
+			r.makeSnapshot(r.snapOrder)
+		} else if r.snap != nil && len(e.initOrder) > 0 && r.snapExtends < 6 {
+			// this path initialised packages the snapshot does not contain (an earlier path ended
+			// before reaching them): extend the snapshot so that later paths do not repeat the work
+			r.snapExtends++
+			r.snapOrder = append(r.snapOrder, e.initOrder...)
+			old := r.snap
+			r.snap = nil
+			r.makeSnapshot(r.snapOrder)
+			if r.snap == nil {
+				r.snap = old
+			}
 		}
 	}()
 	defer func() {
